@@ -249,6 +249,8 @@ func (in *Interp) resetPath(prefix []Decision, model map[string]uint64) {
 	in.reached = map[string]bool{}
 	in.observes = nil
 	in.clockLast = nil
+	in.clockFirst = nil
+	in.clockSpan = 0
 	in.clockHalf = nil
 	in.uuidSeq = 0
 	in.usedIntrinsics = map[string]bool{}
